@@ -367,7 +367,119 @@ def emit_adapters():
     return '\n'.join(L) + '\n'
 
 
-EMITTERS = {'GenConst.v': emit_const, 'GenMime.v': emit_mime, 'GenAdapters.v': emit_adapters}
+def emit_routing():
+    L = ['(* GENERATED from /repo by harness/gen.py on every run; do not edit. *)',
+         'From Coq Require Import NArith List Bool.', 'From RSV Require Import gen.GenConst.', 'Import ListNotations.',
+         'Open Scope N_scope.', '']
+    rel = 'rsocket/routing/request_router.py'
+    tree = _parse(rel)
+    cls = class_node(tree, rel, 'RequestRouter')
+    slot = {'self._response_routes': 1, 'self._stream_routes': 2, 'self._channel_routes': 3, 'self._fnf_routes': 4,
+            'self._metadata_push': 5}
+    ufield = {'response': 1, 'stream': 2, 'channel': 3, 'fire_and_forget': 4, 'metadata_push': 5}
+    deco = dict(ufield)
+    init = func_node(cls, rel, '__init__')
+    rows = dict_literal_names(rel, '_route_map_by_frame_type', lambda t: func_node(class_node(t, rel, 'RequestRouter'), rel, '__init__'))
+    out = []
+    for k, v in rows:
+        if not k.startswith('FrameType.') or v not in slot:
+            raise GenError(f'{rel}: unexpected _route_map_by_frame_type row {k}: {v}')
+        out.append(f'(FT_{k.split(".")[1]}, {slot[v]})')
+    L.append('(* slots: 1 response, 2 stream, 3 channel, 4 fire_and_forget, 5 metadata_push *)')
+    L.append('Definition gen_route_map : list (N * N) := [' + '; '.join(out) + '].')
+    # _get_unknown_route if/elif chain
+    fn = func_node(cls, rel, '_get_unknown_route')
+    body = [n for n in fn.body if not (isinstance(n, ast.Expr) and isinstance(n.value, ast.Constant))]
+    chain = []
+    node = body[0] if body else None
+    while isinstance(node, ast.If):
+        t = node.test
+        if not (isinstance(t, ast.Compare) and len(t.ops) == 1 and isinstance(t.ops[0], ast.Eq)
+                and _dotted(t.left) == 'frame_type' and _dotted(t.comparators[0]).startswith('FrameType.')):
+            raise GenError(f'{rel}: _get_unknown_route test has an unexpected shape')
+        if not (len(node.body) == 1 and isinstance(node.body[0], ast.Return)):
+            raise GenError(f'{rel}: _get_unknown_route branch is not a single return')
+        tgt = _dotted(node.body[0].value)
+        if not tgt.startswith('self._unknown.') or tgt.split('.')[-1] not in ufield:
+            raise GenError(f'{rel}: _get_unknown_route returns {tgt}')
+        chain.append(f'(FT_{_dotted(t.comparators[0]).split(".")[1]}, {ufield[tgt.split(".")[-1]]})')
+        node = node.orelse[0] if len(node.orelse) == 1 else None
+        if node is None:
+            break
+    if len(body) != 1 or not chain:
+        raise GenError(f'{rel}: _get_unknown_route is not a single if/elif chain')
+    L.append('Definition gen_unknown_chain : list (N * N) := [' + '; '.join(chain) + '].')
+    ds, du = [], []
+    for d, code in deco.items():
+        fn = func_node(cls, rel, d)
+        rets = [n for n in ast.walk(fn) if isinstance(n, ast.Return)]
+        if len(rets) != 1 or not (isinstance(rets[0].value, ast.Call) and _dotted(rets[0].value.func) == 'decorator_factory'
+                                  and _dotted(rets[0].value.args[0]) in slot):
+            raise GenError(f'{rel}: decorator {d} is not `return decorator_factory(self._x, route)`')
+        ds.append(f'({code}, {slot[_dotted(rets[0].value.args[0])]})')
+        fn = func_node(cls, rel, d + '_unknown')
+        tg = [_dotted(n.targets[0]) for n in ast.walk(fn) if isinstance(n, ast.Assign) and len(n.targets) == 1
+              and isinstance(n.targets[0], ast.Attribute)]
+        tg = [x for x in tg if x.startswith('self._unknown.')]
+        if len(tg) != 1 or tg[0].split('.')[-1] not in ufield:
+            raise GenError(f'{rel}: {d}_unknown does not assign exactly one self._unknown.<field>')
+        du.append(f'({code}, {ufield[tg[0].split(".")[-1]]})')
+    L.append('Definition gen_deco_slot : list (N * N) := [' + '; '.join(ds) + '].')
+    L.append('Definition gen_deco_unknown : list (N * N) := [' + '; '.join(du) + '].')
+    # the wrap test in route()
+    fn = func_node(cls, rel, 'route')
+    wraps = []
+    for n in ast.walk(fn):
+        if isinstance(n, ast.Compare) and len(n.ops) == 1 and isinstance(n.ops[0], ast.Eq):
+            try:
+                if _dotted(n.left) == 'frame_type' and _dotted(n.comparators[0]).startswith('FrameType.'):
+                    wraps.append(_dotted(n.comparators[0]).split('.')[1])
+            except GenError:
+                pass
+    if len(wraps) != 1:
+        raise GenError(f'{rel}: route() does not test frame_type against exactly one FrameType')
+    L.append(f'Definition gen_wrap_frame_type : N := FT_{wraps[0]}.')
+    # handler methods
+    rel2 = 'rsocket/routing/routing_request_handler.py'
+    cls2 = class_node(_parse(rel2), rel2, 'RoutingRequestHandler')
+    meth = {'request_response': 1, 'request_stream': 2, 'request_channel': 3, 'request_fire_and_forget': 4, 'on_metadata_push': 5}
+    rowsm = []
+    for m, code in meth.items():
+        fn = func_node(cls2, rel2, m)
+        tries = [n for n in fn.body if isinstance(n, ast.Try)]
+        if len(tries) != 1 or len(tries[0].handlers) != 1:
+            raise GenError(f'{rel2}: {m} is not a single try/except')
+        tr = tries[0]
+        calls = [n for n in ast.walk(ast.Module(body=tr.body, type_ignores=[])) if isinstance(n, ast.Call)
+                 and isinstance(n.func, ast.Attribute) and n.func.attr == '_parse_and_route']
+        if len(calls) != 1 or not _dotted(calls[0].args[0]).startswith('FrameType.'):
+            raise GenError(f'{rel2}: {m} does not call _parse_and_route(FrameType.X, ...) exactly once')
+        ft = _dotted(calls[0].args[0]).split('.')[1]
+        returns = any(isinstance(n, ast.Return) for n in tr.body)
+        hret = [n for n in ast.walk(ast.Module(body=tr.handlers[0].body, type_ignores=[])) if isinstance(n, ast.Return)]
+        if not hret:
+            ek = 0
+        else:
+            v = hret[0].value
+            if isinstance(v, ast.Tuple) and len(v.elts) == 2 and isinstance(v.elts[0], ast.Call) \
+                    and _dotted(v.elts[0].func) == 'ErrorStream' and isinstance(v.elts[1], ast.Call) \
+                    and _dotted(v.elts[1].func) == 'NullSubscriber':
+                ek = 3
+            elif isinstance(v, ast.Call) and _dotted(v.func) == 'create_error_future':
+                ek = 1
+            elif isinstance(v, ast.Call) and _dotted(v.func) == 'ErrorStream':
+                ek = 2
+            else:
+                raise GenError(f'{rel2}: {m} except clause returns an unexpected expression')
+        rowsm.append(f'({code}, FT_{ft}, {ek}, {"true" if returns else "false"})')
+    L.append('(* method (1 request_response, 2 request_stream, 3 request_channel, 4 request_fire_and_forget, 5 on_metadata_push), '
+             'frame type passed to _parse_and_route, error outcome (0 swallowed, 1 error future, 2 error stream, '
+             '3 error stream + null subscriber), whether the result is returned *)')
+    L.append('Definition gen_meth_table : list (N * N * N * bool) := [' + '; '.join(rowsm) + '].')
+    return '\n'.join(L) + '\n'
+
+
+EMITTERS = {'GenRouting.v': emit_routing, 'GenConst.v': emit_const, 'GenMime.v': emit_mime, 'GenAdapters.v': emit_adapters}
 
 
 def run(only=None):
